@@ -11,7 +11,7 @@ from symx import load
 from harness import common, ref
 
 BOUNDS = {
-    "quick": {"aggregators": "14 classes + quantile levels 0, 0.1, 0.5, 1 on vectors of 1..3 and 2x2 arrays along axis None/0/1",
+    "quick": {"aggregators": "14 classes + quantile levels 0, 0.1, 0.5, 1 on vectors of 1..3, 2x2 and 1x2x2 arrays along every axis",
               "window": "3 lead times / init times with symbolic spacing, symbolic window length, 6 aggregation functions",
               "through Data": "obs, fcst, 2 ensemble members, ensemble-derived threshold and quantile fields on 1x3x1"},
     "thorough": {"aggregators": "vectors of 1..4, 2x2 and 2x2x2 arrays along every axis",
@@ -32,7 +32,7 @@ def h_aggregators(maxn, cube):
         a = S.choose("agg", len(menu))
         name = menu[a]
         agg = ref.make_aggregator(aggmod, name)
-        shapes = [(n,) for n in range(1, maxn + 1)] + [(2, 2)] + ([(2, 2, 2)] if cube else [])
+        shapes = [(n,) for n in range(1, maxn + 1)] + [(2, 2)] + ([(2, 2, 2)] if cube else [(1, 2, 2)])   # verif's arrays are 3-D
         si = S.choose("shape", len(shapes))
         shape = shapes[si]
         axes = [None] + list(range(len(shape))) if len(shape) > 1 else [None]
@@ -48,7 +48,9 @@ def h_aggregators(maxn, cube):
             return
         moved = np.moveaxis(raw, axis, -1)
         gotarr = np.asarray(got, dtype=object) if S.symbolic else np.asarray(got)
-        S.prove("result-shape", tuple(gotarr.shape) == tuple(moved.shape[:-1]))
+        S.prove("result-shape", tuple(gotarr.shape) == tuple(moved.shape[:-1]), detail=tag)
+        if tuple(gotarr.shape) != tuple(moved.shape[:-1]):
+            return
         for idx in np.ndindex(*moved.shape[:-1]):
             want = ref.r_agg(S, name, list(moved[idx]))
             S.prove("statistic=%s" % tag, S.same(gotarr[idx], want), twin=S.same(gotarr[idx], want + 1))
